@@ -21,14 +21,19 @@ META = {
                    '(acv/pyeval.py) on objects of the module\'s own classes: the two active selectors on every sorted candidate list up to six '
                    'entries (the comparison with the match abstracted to its status), and finder + selector pipelines for both candidate '
                    'finders on every policy of one or two rules over the years 2000..2003 plus the anchor rule of year 0, and twenty match '
-                   'intervals; decision table of the "A/B" abbreviation half on both sides.',
+                   'intervals; createAbbreviation against _calc_abbrev on every FORMAT kind x DST shift x LETTER (R7); the reference interpreted in full on '
+                   'model zones under all eight option combinations (R10) and ExtendedZoneProcessor interpreted in full on the tables the '
+                   'interpreted compiler renders for the same zones, against the reference, at the hours around every New Year and every '
+                   'transition of 2003..2007 (R11; acv/rules_C04c.py); the same two interpreters on shipped data: the extended processor on the shipped '
+                   'zonedbx tables of a sample of zones against the reference on the recorded lines of the same entries, recompiled (R12).',
     'decided': 'the listed helper pairs return the same value (result and field effects) on every member of their stated input family; '
                'both look-up loops keep the last transition whose start <= query; both sides canonicalise date tuples to '
                '0 <= time-of-day < 24h; both sides use the 14-month window around the cache-key year; the reserved prior slot is '
                'cleared before use; on the stated abstract families the Python result does not depend on the selector or on the finder; '
-               'both sides choose the same half of an A/B FORMAT for negative, zero and positive DST shifts',
-    'not_decided': 'equality of the two complete algorithms on real zone data at every instant; option independence outside the '
-                   'abstract families (three or more interacting rules, s/u suffixes in the selector inputs, the 13-month window).',
+               'both sides produce the same abbreviation for every FORMAT kind, DST shift and LETTER; on the model zones the reference does not depend '
+               'on any of its three options and the extended processor reports the reference\'s offset, DST offset and abbreviation at every instant of the family',
+    'not_decided': 'equality of the two complete algorithms on real zone data at every instant (decided on nine model zones at the stated '
+                   'instants only); option independence outside the abstract families and the model zones.',
     'assumptions': ['clang 14 parser', 'CPython ast', 'date tuples with equal suffix are totally ordered scalars (both sides compare '
                     'the tuple matching the suffix of the match bound)', 'suffix values are exactly w/s/u (C12-R3 + transformer filter)',
                     'UNTIL time of an era is non-negative (unsigned in C++)'],
@@ -258,63 +263,6 @@ def finder_rule(R, zs):
         R.violation('R6', 'CandidateFinderBasic~CandidateFinderOptimized', loc,
                     'policy %s (FROM, TO, month) with match [%s, %s): the basic finder leads to %s, the optimized finder to %s; %d of %d cases differ: '
                     'the result depends on the optimize_candidates option' % (list(pol), mt[0], mt[1], _fmt_sel(a), _fmt_sel(b), len(diffs), n))
-
-
-def abbrev_rule(R, lib, zs):
-    """For a FORMAT "STD/DST" both sides pick a half from the DST shift of the transition; the decision tables
-    (shift negative / zero / positive -> head or tail) must coincide.  Python: the `if` under `index >= 0` in
-    ZoneSpecifier._calc_abbrev; C++: the `if` on deltaMinutes in ExtendedZoneProcessor::createAbbreviation, whose
-    parameter is uint16_t (a negative shift arrives as a large positive number)."""
-    from .gnf import SymExec as _SX, eval_formula, arith_assign
-    R.rule('R7', 'the half of an "A/B" FORMAT is chosen from the DST shift by the same decision table on both sides', floor=2)
-    pf = zs.fn('ZoneSpecifier._calc_abbrev')
-    c = 'createAbbreviation~ZoneSpecifier._calc_abbrev:slash-half'
-    ptab = None
-    for n in ast.walk(pf.node):
-        if isinstance(n, ast.If) and isinstance(n.test, ast.Compare) and len(n.body) == 1 and len(n.orelse) == 1 \
-                and all(isinstance(b, ast.Assign) and isinstance(b.value, ast.Subscript) and isinstance(b.value.slice, ast.Slice) for b in (n.body[0], n.orelse[0])):
-            def is_head(a):
-                return a.value.slice.lower is None and a.value.slice.upper is not None
-            names = [x.id for x in ast.walk(n.test) if isinstance(x, ast.Name)]
-            if len(names) != 1:
-                continue
-            tab = {}
-            for v in (-3600, 0, 3600):
-                t = bool(eval(compile(ast.Expression(n.test), '<abbrev>', 'eval'), {}, {names[0]: v}))
-                tab[(v > 0) - (v < 0)] = 'head' if is_head(n.body[0] if t else n.orelse[0]) else 'tail'
-            ptab = tab
-    R.instance('R7', 'ZoneSpecifier._calc_abbrev:slash-half', pf.loc, 'table %r' % (ptab,))
-    cf = [f for f in lib.fns('ace_time::ExtendedZoneProcessor::createAbbreviation')][0]
-    ctab = None
-    dparam = cf.params[3][0]
-    for s in walk_stmts(cf.body):
-        if s.k == 'if' and any(x.k == 'var' and x.a[0] == dparam for x in walk_expr(s.a[0])):
-            def src_of(blk):
-                for t in walk_stmts(blk):
-                    for e in all_exprs([t]):
-                        if e.k == 'call' and e.a[0].split('::')[-1] in ('memcpy', 'strncpy', 'strcpy') and len(e.a[2]) >= 2:
-                            a = e.a[2][1]
-                            while a.k in ('cast', 'ptrcast'):
-                                a = a.a[-1]
-                            return 'head' if path_of(a) == cf.params[2][0] else 'tail'
-                return None
-            form = _SX(fold_global=lib.global_value).cond(s.a[0], {})
-            tab = {}
-            for sg, v in ((-1, 65536 - 60), (0, 0), (1, 60)):
-                t = eval_formula(form, arith_assign({dparam: v}))
-                tab[sg] = src_of(s.a[1] if t else s.a[2])
-            ctab = tab
-    R.instance('R7', 'ExtendedZoneProcessor::createAbbreviation:slash-half', cf.loc, 'table %r' % (ctab,))
-    if ptab is None or ctab is None or None in ctab.values():
-        R.violation('R7', c, cf.loc if ctab is None else pf.loc, 'the half selection was not recognised on the %s side' % ('C++' if ctab is None or None in (ctab or {}).values() else 'Python'))
-        return
-    want = {-1: 'tail', 0: 'head', 1: 'tail'}
-    if ptab != ctab:
-        sg = [k for k in (-1, 0, 1) if ptab[k] != ctab[k]][0]
-        R.violation('R7', c, pf.loc, 'for a %s DST shift the Python reference takes the %s of "STD/DST" and the C++ processor the %s: the abbreviation differs '
-                    'while offsets agree (e.g. Europe/Dublin in winter, SAVE -1:00)' % ({-1: 'negative', 0: 'zero', 1: 'positive'}[sg], ptab[sg], ctab[sg]))
-    elif ptab != want:
-        R.violation('R7', c, pf.loc, 'both sides use the table %r; zic names a transition with any non-zero SAVE by the second half: expected %r' % (ptab, want))
 
 
 def pool_rules(R, lib, zs, full=False):
